@@ -72,6 +72,13 @@ Definition u8_buf_argmax_generic := @buf_argmax_generic Z Z.leb.
 Definition u8_buf_max_generic := @buf_max_generic Z Z.leb.
 Definition u8_buf_threshold_generic := @buf_threshold_generic Z Z.leb.
 
+Definition f32_buf_dispatch_argmax := @buf_dispatch_argmax_f32 F32.t F32.le F32.lt F32.ninf.
+Definition f32_buf_dispatch_max := @buf_dispatch_max_f32 F32.t F32.le F32.max_x86 F32.max.
+Definition f32_buf_dispatch_threshold := @buf_dispatch_threshold F32.t F32.le.
+Definition u8_buf_dispatch_argmax := buf_dispatch_argmax_u8.
+Definition u8_buf_dispatch_max := buf_dispatch_max_u8.
+Definition u8_buf_dispatch_threshold := @buf_dispatch_threshold Z Z.leb.
+
 Extraction Language OCaml.
 Extraction "maxi_model.ml"
   mk_f32 bits_f32 f32_is_nan f32_le f32_argmax_generic f32_max_generic f32_threshold
@@ -84,4 +91,6 @@ Extraction "maxi_model.ml"
   u8_check_max u8_check_argmax u8_check_threshold u8_check_C07 u8_index_usize u8_get offset
   f32_buf_run u8_buf_run b_logical b_iter brows bmi
   f32_buf_argmax_generic f32_buf_max_generic f32_buf_threshold_generic
-  u8_buf_argmax_generic u8_buf_max_generic u8_buf_threshold_generic.
+  u8_buf_argmax_generic u8_buf_max_generic u8_buf_threshold_generic
+  f32_buf_dispatch_argmax f32_buf_dispatch_max f32_buf_dispatch_threshold
+  u8_buf_dispatch_argmax u8_buf_dispatch_max u8_buf_dispatch_threshold.
